@@ -708,3 +708,37 @@ def case_softmax_old_opset():
 
 
 CASES["softmax_old_opset"] = case_softmax_old_opset
+
+
+def case_matmul_add_gemm_bias():
+    import onnx_ir as ir
+    from onnxscript.rewriter.rules.common import _matmul_add_to_gemm as R
+    bad = 0
+    for ashape, bshape, cshape, ta, tb in (([1, 4], [4, 3], [5, 3], False, False), ([1, 4], [4, 3], [2, 1, 3], False, False), ([4, 1], [3, 4], [5, 3], True, True),
+                                           ([2, 4], [4, 3], [3], False, False), ([2, 4], [4, 3], [2, 1], False, False)):
+        nodes, an, bn = [], "a", "b"
+        if ta:
+            nodes.append(helper.make_node("Transpose", ["a"], ["at"], perm=[1, 0])); an = "at"
+        if tb:
+            nodes.append(helper.make_node("Transpose", ["b"], ["bt"], perm=[1, 0])); bn = "bt"
+        nodes += [helper.make_node("MatMul", [an, bn], ["m"]), helper.make_node("Add", ["m", "c"], ["y"])]
+        g = helper.make_graph(nodes, "g", [vi("a", TensorProto.FLOAT, ashape), vi("b", TensorProto.FLOAT, bshape), vi("c", TensorProto.FLOAT, cshape)], [vi("y", TensorProto.FLOAT, None)])
+        m = helper.make_model(g, opset_imports=[helper.make_opsetid("", 18)], ir_version=9)
+        rng = np.random.default_rng(3)
+        f = {"a": rng.random(ashape).astype(np.float32), "b": rng.random(bshape).astype(np.float32), "c": rng.random(cshape).astype(np.float32)}
+        a0 = np.asarray(run(m, f)[0])
+        mm = ir.serde.deserialize_model(m)
+        n = R.rules.apply_to_model(mm)
+        try:
+            b0 = np.asarray(run(ir.serde.serialize_model(mm), f)[0])
+            okv = a0.shape == b0.shape and np.allclose(a0, b0, rtol=1e-5, atol=1e-6)
+            msg = f"output shape {a0.shape} -> {b0.shape}" + ("" if a0.shape != b0.shape else ", values differ")
+        except Exception as e:  # noqa: BLE001
+            okv, msg = False, f"rewritten model fails: {str(e)[:120]}"
+        if not okv:
+            print(f"Add(MatMul(a{ashape}{'^T' if ta else ''}, b{bshape}{'^T' if tb else ''}), c{cshape}): rule applied {n}x ({[x.op_type for x in mm.graph]}); {msg}")
+            bad += 1
+    return bad
+
+
+CASES["matmul_add_gemm_bias"] = case_matmul_add_gemm_bias
